@@ -404,9 +404,29 @@ impl Scenario for FaultScn {
                 self.fault_cases.lock().unwrap().insert(fc);
             }
         }
+        // root cause "failed open treated as a missing table": the first injected fault is a failed READ
+        // during the writer's initial open (before any mutating call) and the writer nevertheless
+        // went on to write. Everything that follows in such an execution is reported under one key.
+        let first_fault = exec.points.iter().position(|p| p.answer != 0);
+        let failed_open_then_wrote = match first_fault {
+            Some(i) => {
+                let p = &exec.points[i];
+                !p.call().verb.mutating()
+                    && p.ans() == Answer::FailBefore
+                    && !exec.points[..i].iter().any(|q| q.call().verb.mutating())
+                    && exec.points[i + 1..].iter().any(|q| q.call().verb.mutating())
+                    && !matches!(self.cell.op, Op::Create)
+            }
+            None => false,
+        };
         out.into_iter()
             .map(|(oracle, what)| {
-                let key = if oracle.ends_with("-panic") {
+                let own_root_cause = oracle.ends_with("-panic")
+                    || matches!(oracle, "ext-dangling" | "lost-put-reply-handled-as-conflict" | "detached-became-latest");
+                let uri_write = matches!(self.cell.op, Op::Append { .. } | Op::Overwrite { .. });
+                let key = if failed_open_then_wrote && uri_write && !own_root_cause {
+                    format!("c01/{}/failed-open-treated-as-missing-table/{}", kind.tag(), self.cell.op.kind())
+                } else if oracle.ends_with("-panic") {
                     format!("c01/{}/{}", oracle, last_panic_site())
                 } else if oracle == "ext-dangling" || oracle == "lost-put-reply-handled-as-conflict" {
                     // which writer step left the mapping dangling: its own cleanup after the (lost) put
